@@ -3,7 +3,7 @@
    harness/py2gal.py with the configurations C13_SAMPLE_SEG ... of harness/src_functions.py), for all inputs. *)
 From Coq Require Import ZArith List Bool Arith Lia ZifyBool Permutation.
 From Batchie Require Import Lib.Sexp Lib.PyRt Model.Encode Model.Screen Model.Retro Model.RetroHoldout
-  Generated.SrcRetro Generated.SrcRetroGen Proofs.PyRtLemmas Proofs.C11Lib Proofs.C11Select Proofs.C13SampleSeg.
+  Generated.SrcRetro Generated.SrcRetroGen Proofs.PyRtLemmas Proofs.C11Lib Proofs.C11Select Proofs.C13SampleSeg Proofs.C13Optimal.
 Import ListNotations.
 Open Scope nat_scope.
 
@@ -208,4 +208,129 @@ Proof.
     match goal with |- context [res_fold ?f (s :: samples) (ds, [])] =>
       destruct (ss_for_neg mx rows f Hmx ltac:(intros; reflexivity) s samples ds []) as [t ->] end.
     cbn [res_bind]. eauto.
+Qed.
+
+(* ---------- FixedSizeSmoother / OptimalSizeSmoother._smooth_plates ---------- *)
+(* the loop over the plates (drop / keep / sub-sample), for an arbitrary body equal to the canonical one *)
+Lemma size_for (t : Z) (rows : screen_t) (f : list bvec * list draw -> bvec -> result (list bvec * list draw)) :
+  (forall res ds v, f (res, ds) v =
+     if (plate_size v <? t)%Z then Ok (res, ds)
+     else
+       dor (r1, d1) <- (if (plate_size v =? t)%Z then Ok (res ++ [v], ds)
+                        else
+                          dor (d2, r2) <- (if (plate_size v >? t)%Z then
+                                             dor (idx, d3) <- choice_ints (vec_positions v) t ds;
+                                             Ok (d3, res ++ [vof_idx (length rows) idx])
+                                           else Ok (ds, res));
+                          Ok (r2, d2));
+       Ok (r1, d1)) ->
+  forall plates ds res,
+    res_fold f (map (fun p => plate_vec p rows) plates) (res, ds)
+    = dor r <- size_results t (length rows) rows plates ds; Ok (res ++ fst r, snd r).
+Proof.
+  intros Hf. induction plates as [|p plates IH]; intros ds res; cbn [map res_fold size_results res_bind fst snd].
+  - now rewrite app_nil_r.
+  - rewrite Hf. unfold plate_size. set (sz := Z.of_nat (vcount (plate_vec p rows))).
+    destruct (sz <? t)%Z eqn:E1; cbn [res_bind]; [apply IH|].
+    destruct (sz =? t)%Z eqn:E2; cbn [res_bind].
+    + rewrite IH. destruct (size_results t (length rows) rows plates ds) as [[vs ds']|e]; cbn [res_bind fst snd]; [|reflexivity].
+      now rewrite <- app_assoc.
+    + destruct (sz >? t)%Z eqn:E3; [|lia]. unfold choice_ints.
+      destruct (t <? 0)%Z; cbn [res_bind]; [reflexivity|].
+      destruct (take_ints ds) as [[idx ds1]|e]; cbn [res_bind]; [|reflexivity].
+      rewrite IH. destruct (size_results t (length rows) rows plates ds1) as [[vs ds']|e]; cbn [res_bind fst snd]; [|reflexivity].
+      now rewrite <- app_assoc.
+Qed.
+
+Theorem src_fixed_size_is_model : forall t rows ds,
+  src_fixed_size_smooth_plates t rows ds = size_smooth t rows ds.
+Proof.
+  intros t rows ds. unfold src_fixed_size_smooth_plates, size_smooth, plates_of.
+  rewrite (size_for t rows) by (intros; reflexivity).
+  destruct (size_results t (length rows) rows (plate_names_of rows) ds) as [[vs ds']|e]; cbn [res_bind fst snd app]; [|reflexivity].
+  rewrite (res_fold_pure _ vor) by reflexivity. reflexivity.
+Qed.
+
+(* the three numpy statements that pick the optimal size, on ints, against the model on nat *)
+Lemma leb_of_nat : forall x y, (Z.of_nat x <=? Z.of_nat y)%Z = (x <=? y).
+Proof. intros. destruct (x <=? y) eqn:E; [apply Nat.leb_le in E|apply Nat.leb_gt in E]; lia. Qed.
+Lemma ltb_of_nat : forall x y, (Z.of_nat x <? Z.of_nat y)%Z = (x <? y).
+Proof. intros. destruct (x <? y) eqn:E; [apply Nat.ltb_lt in E|apply Nat.ltb_ge in E]; lia. Qed.
+
+Lemma insert_z_of_nat : forall x l, insert_z (Z.of_nat x) (map Z.of_nat l) = map Z.of_nat (insert_nat x l).
+Proof.
+  intros x. induction l as [|y l IH]; [reflexivity|]. cbn [map insert_z insert_nat].
+  rewrite leb_of_nat. destruct (x <=? y); cbn [map]; [reflexivity|]. now rewrite IH.
+Qed.
+Lemma sort_z_of_nat : forall l, sort_z (map Z.of_nat l) = map Z.of_nat (sort_nat l).
+Proof.
+  induction l as [|x l IH]; [reflexivity|]. cbn [map sort_z sort_nat fold_right].
+  fold (sort_z (map Z.of_nat l)). fold (sort_nat l). now rewrite IH, insert_z_of_nat.
+Qed.
+
+Lemma products_of_nat : forall l k N, N = k + length l ->
+  vmul_z (map Z.of_nat l) (rsub_z (Z.of_nat N) (map Z.of_nat (seq k (length l))))
+  = map Z.of_nat (map (fun kx => snd kx * (N - fst kx)) (enum_from k l)).
+Proof.
+  induction l as [|x l IH]; intros k N HN; [reflexivity|].
+  cbn [length seq map enum_from fst snd]. unfold vmul_z, rsub_z in *. cbn [map combine fst snd]. f_equal.
+  - rewrite Nat2Z.inj_mul, Nat2Z.inj_sub by (cbn [length] in HN; lia). reflexivity.
+  - apply IH. cbn [length] in HN. lia.
+Qed.
+
+Lemma argmax_go_of_nat : forall l i best bi,
+  argmax_z_go (map Z.of_nat l) (Z.of_nat i) (Z.of_nat best) (Z.of_nat bi) = Z.of_nat (argmax_go l i best bi).
+Proof.
+  induction l as [|y l IH]; intros i best bi; [reflexivity|]. cbn [map argmax_z_go argmax_go].
+  rewrite ltb_of_nat. replace (Z.of_nat i + 1)%Z with (Z.of_nat (S i)) by lia.
+  destruct (best <? y); apply IH.
+Qed.
+Lemma argmax_of_nat : forall l, l <> [] -> argmax_z (map Z.of_nat l) = Ok (Z.of_nat (argmax l)).
+Proof.
+  intros [|x l] H; [congruence|]. cbn [map argmax_z argmax]. f_equal. apply (argmax_go_of_nat l 1 x 0).
+Qed.
+
+Lemma list_get_of_nat : forall l i, i < length l -> list_get (map Z.of_nat l) (Z.of_nat i) = Ok (Z.of_nat (nth i l 0)).
+Proof.
+  intros l i Hi. unfold list_get. destruct (Z.of_nat i <? 0)%Z eqn:E; [lia|]. rewrite E, Nat2Z.id.
+  rewrite nth_error_map, (nth_error_nth' l 0 Hi). reflexivity.
+Qed.
+
+Lemma plate_names_of_nil : forall rows, plate_names_of rows = [] -> rows = [].
+Proof.
+  intros [|r rows] H; [reflexivity|]. exfalso.
+  assert (In (r_plate r) (plate_names_of (r :: rows))) as Hin by (apply In_plate_names_of; exists r; split; [now left|reflexivity]).
+  rewrite H in Hin. contradiction.
+Qed.
+
+Lemma sort_nat_length : forall l, length (sort_nat l) = length l.
+Proof. intros l. apply Permutation_length, sort_nat_perm. Qed.
+
+Theorem src_optimal_size_is_model : forall rows ds,
+  src_optimal_size_smooth_plates rows ds = optimal_smooth rows ds.
+Proof.
+  intros rows ds. destruct rows as [|r0 rows']; [reflexivity|].
+  assert (r0 :: rows' <> []) as Hrows by discriminate. remember (r0 :: rows') as rows eqn:Er.
+  unfold src_optimal_size_smooth_plates, optimal_smooth.
+  replace (Retro.is_nil rows) with false by (subst; reflexivity).
+  assert (map (fun v => plate_size v) (plates_of rows) = map Z.of_nat (plate_sizes rows)) as ->.
+  { unfold plates_of, plate_sizes, plate_size. now rewrite !map_map. }
+  rewrite sort_z_of_nat. set (s := sort_nat (plate_sizes rows)).
+  unfold zlen, zrange. rewrite map_length, Nat2Z.id.
+  rewrite (products_of_nat s 0 (length s)) by reflexivity. fold (size_products s).
+  assert (plate_sizes rows <> []) as Hne.
+  { unfold plate_sizes. intros E. apply map_eq_nil, plate_names_of_nil in E. congruence. }
+  assert (s <> []) as Hs.
+  { intros E. apply (f_equal (@length _)) in E. subst s. rewrite sort_nat_length in E.
+    destruct (plate_sizes rows); [congruence|cbn in E; lia]. }
+  assert (size_products s <> []) as Hp.
+  { unfold size_products. intros E. apply map_eq_nil in E. destruct s; [congruence|discriminate]. }
+  rewrite (argmax_of_nat _ Hp). cbn [res_bind].
+  destruct (argmax_spec _ Hp) as [Hlt _].
+  unfold size_products in Hlt at 2. rewrite map_length, enum_from_length in Hlt.
+  rewrite (list_get_of_nat s _ Hlt). cbn [res_bind]. fold (optimal_size (plate_sizes rows)).
+  unfold size_smooth, plates_of.
+  rewrite (size_for (Z.of_nat (optimal_size (plate_sizes rows))) rows) by (intros; reflexivity).
+  destruct (size_results _ (length rows) rows (plate_names_of rows) ds) as [[vs ds']|e]; cbn [res_bind fst snd app]; [|reflexivity].
+  rewrite (res_fold_pure _ vor) by reflexivity. reflexivity.
 Qed.
